@@ -10,7 +10,7 @@ from core import impl as I
 ID = "C01"
 LEAN_MODULES = ["AcnProofs.C01", "AcnProofs.C01Assemble", "AcnProofs.Lemmas.EventCorePilots", "AcnProofs.Lemmas.EventCoreSimFail",
                 "AcnProofs.Lemmas.EventCoreStep", "AcnProofs.Lemmas.EventCoreAssemble"]
-TIE_MODULES = ["AcnProofs.Lemmas.CodeTieQueue"]
+TIE_MODULES = ["AcnProofs.Lemmas.CodeTieQueue", "AcnProofs.Lemmas.CodeTieQueueOps", "AcnProofs.Lemmas.CodeTieEvseOps", "AcnProofs.Lemmas.CodeTieNetOps", "AcnProofs.Lemmas.CodeTieSimEvent", "AcnProofs.Lemmas.CodeTieSimEventNet"]
 DRIVER = "drv_C01"
 REQUIRED_THEOREMS = [
     "Acn.C01.prec_order", "Acn.C01.keyLt_strictWeakOrder", "Acn.C01.cfg0_valid", "Acn.C01.init_Inv",
